@@ -107,6 +107,9 @@ func (c11) Run(c *Ctx, i int) CaseResult {
 		n = 32
 	}
 	ids := []string{"u1", "u2", "u3", "zzz"}
+	if strings.Contains(q, "node(id:") {
+		ids = ids[:3] // an unknown id under the gateway's own node field is a known-finding region
+	}
 	type reqT struct {
 		vars map[string]interface{}
 		want string
